@@ -274,7 +274,10 @@ fn vcs_lane(ctx: &mut Ctx, idx: u64) {
     ctx.sample(|| json!({"value": p.to_string()}));
 }
 
-const FREE: [&str; 8] = ["https://lists.example.com/1234.html", "yes", "http://bugs.debian.org/1", "abc123", "2.0", "é text with blanks", "Commit:abc", "nope"];
+const FREE: [&str; 11] = [
+    "https://lists.example.com/1234.html", "yes", "http://bugs.debian.org/1", "abc123", "2.0", "é text with blanks", "Commit:abc", "nope",
+    "https://example.org/fix.patch, adapted for 1.2", "0123abcd, 4567ef01", "a,b , c",
+];
 
 fn dep3_lane(ctx: &mut Ctx, idx: u64) {
     use dep3::{AppliedUpstream, Forwarded, Origin, OriginCategory};
